@@ -30,7 +30,9 @@ BAD = ['fail', 'error', 'uxs', 'sub:1,0,1', 'sub:0,1,1', 'sub:2,0,0',
        'setup_err', 'teardown_err', 'cleanup_err', 'body+teardown', 'sysexit',
        # the failing test also writes to the real fd 2: bytes that are not
        # UTF-8 / a line that ends in three integers
-       'fail~fd2b', 'error~fd2t']
+       'fail~fd2b', 'error~fd2t',
+       # ... or has a str() that reads like a report header without names
+       'fail~str100']
 NOISE = {'fd2b': [['fd2b', 'caf\xe9 \xff\xfe\n', False]],
          'fd2t': [['fd2', 'pool statistics (idle busy dead): 4 0 0\n', False]]}
 OPTS = {
@@ -151,7 +153,10 @@ def build_spec(case):
             else:
                 s = 'pass'
             t = {'n': 'q%d%s' % (idx, nm), 'l': lay, 's': s}
-            if '~' in s:
+            if s.endswith('~str100'):
+                t['s'] = s.split('~')[0]
+                t['strv'] = '1 0 0'
+            elif '~' in s:
                 t['s'], nz = s.split('~')
                 t['w'] = NOISE[nz]
             tests.append(t)
